@@ -13,5 +13,9 @@ def run(prog, rep, tier):
     rep.not_decided = "that every symbol-table entry is yielded exactly once, in table order, numbered from zero, with the stored name/value/size."
     apply(rep, "W2b", "ELF-domain constants built from symbol fields go through the matching extraction macro", r_elf.w2b(prog), 5)
     apply(rep, "W2", "GELF_ST_* macro paired with its domain and the symbol's machine", r_elf.w2(prog), 6)
+    import r_pure
+    q = r_pure.q1(prog)
+    apply(rep, "Q1", "operators and constant domains carry no mutable members (nothing is remembered from one symbol/file to the next)",
+          ([i for i in q[0] if i[0].startswith("Q1i:")], [f for f in q[1] if f["key"].startswith("Q1i:")]), 2)
     apply(rep, "Z1e", "per-machine ELF constant names round-trip", r_elf.z1elf(prog), 7)
     maybe_mutants("C18", rep, tier)
